@@ -32,6 +32,10 @@ claims = {
          "three alternative orders per diverging range loop, not all permutations; canonical goroutine schedule; gqlparser native"),
  "C14": ("DESIGN.md §4 C14", "CachedPlanner.Plan/hash/clean with the real SequentialPlanner inside vs. the plain planner on the same context, for every history of <= 2 (quick) / 3 (thorough) requests over an 11-operation pool (same selection with different operation type / name / variable values / aliases / fragment bodies), TTL in {0,1,10} and a symbolic monotone clock (expiry between requests is decided by the solver); plus two concurrent Plan calls under every interleaving with the happens-before race detector on the two cache maps.",
          "time.Now = symbolic clock; gqlparser and sha1 native on concrete input; engine's RWMutex model"),
+ "C15": ("DESIGN.md §4 C15", "introspectRemoteSchema / parseQueryerResponse (typed decoding driven by remote.go's struct tags through the abstract codec) / parseType / parseTypeRef / parseArgList / parseInputField over a spec-shaped introspection answer rendered from a symbolic descriptor: 10 list/non-null wrapper shapes up to depth 5 for field and argument types, argument / input-field defaults (Int, String, list literals), deprecations, directive with 0-1 arguments, descriptions, optional mutation root, and 3 malformed variants (truncated reference, nameless or unknown possible type) that must yield an error and not a panic.",
+         "descriptor-bounded answers; final gqlparser.LoadSchema native; gqlparser's formatter interpreted"),
+ "C16": ("DESIGN.md §4 C16", "The gateway's introspection resolver (resolveSchema/Type/Field/InputValue/Directive) through the real handler on a merged scenario schema: for each of 9 types, __type(name:) by literal and by variable equals the entry of __schema.types, and the entry is compared with the ast.Schema used for validation (kind, fields, wrappers, arguments, defaults, deprecations, possible types, input fields, enum values, spec null-ness per kind); plus the round trip through another gateway's introspectRemoteSchema.",
+         "one scenario schema; gqlparser native; JSON = abstract codec"),
  "C20": ("DESIGN.md §4 C20", "AsyncMapReduce[int,int,[]int] under every interleaving (stateful search, no pre-emption bound) for n<=3 (quick) / 4 (thorough), failure bit per item symbolic, with a happens-before race detector, deadlock and goroutine-leak detection.",
          "engine's model of channels, select, WaitGroup, defer; map/reduce functions neither panic nor block"),
 }
